@@ -83,6 +83,8 @@ func envSharing(c *vh.Ctx) {
 	for _, ep := range envProgs {
 		pr := parseSrc(ep.src, nil)
 		cs := c19Case{Kind: "share-env:" + ep.name, Src: ep.src}
+		markCase(c19Case{Kind: cs.Kind, Src: ep.src, Input: "-v ID=<own id> -v DIR=<scratch> -v SEED=<n>, ENVIRON C19VAR=env-<own id>, operand file with records r1, r2",
+			Note: fmt.Sprint(goroutines, " goroutines x ", rounds, " executions, Config.ShellCommand empty")})
 		if !pr.ok {
 			c.Fail(vh.Failure{Kind: "oracle", What: "sharing corpus program does not parse", Case: cs, Got: pr.msg + pr.panic_})
 			continue
